@@ -288,6 +288,30 @@ def s_assertinc(rng, depth, variant=None):
     return scn
 
 
+def s_alias(rng, depth, variant=None):
+    """a symbolic address kept in storage (`set(address a)`) and CALLed by two different target functions started from the same
+    frontier state (`poke()` sends 0x01, `poke2()` sends 0x02, the first returned word goes to `last`); candidate accounts: A
+    (returns nothing), B (returns 0x28 + first calldata byte), the target itself, an EOA. No symbolic branch precedes the CALL,
+    so the alias resolution happens on the root path of the transaction."""
+    v = rng.randrange(4) if variant is None else variant
+    A, Bq, T = FIRST_CREATED, FIRST_CREATED + 1, FIRST_CREATED + 2
+
+    def poke(byte):
+        return [0, 0x20, "MSTORE", ("push", byte), 0, "MSTORE8",
+                32, 0x20, 1, 0, 0, 0, "SLOAD", "GAS", "CALL", "POP", 0x20, "MLOAD", 1, "SSTORE"]
+
+    fset = TFn("set(address a)", X + [("push", e2e.M160), "AND", 0, "SSTORE"], domains=[[A, Bq, T, 0xEEEE]])
+    p1, p2 = TFn("poke()", poke(1)), TFn("poke2()", poke(2))
+    order = [[fset, p1, p2], [fset, p2, p1], [p1, p2, fset], [p2, fset, p1]][v % 4]
+    tgt = Target("Caller", order + [TFn("last()", asm.return_word([1, "SLOAD"]), mutability="view")])
+    a = Target("CalleeA", [], runtime=asm.assemble_text("STOP"))
+    b = Target("CalleeB", [], runtime=asm.assemble_text("PUSH0 CALLDATALOAD PUSH0 BYTE PUSH1 0x28 ADD PUSH0 MSTORE PUSH1 0x20 PUSH0 RETURN"))
+    last = call_view(T, asm.selector("last()"))
+    invs = [Inv("invariant_last_ne29", fail_if(asm.eq_const(last, 0x29))), Inv("invariant_last_ne2a", fail_if(asm.eq_const(last, 0x2A), "flag")),
+            Inv("invariant_last_ne28", fail_if(asm.eq_const(last, 0x28))), Inv("invariant_last_zero", fail_if(last + ["ISZERO", "ISZERO"]))]
+    return Scenario("InvAlias", [a, b, tgt], invs, filters={"targetContracts": [T]}, kind="stored-symbolic-callee")
+
+
 def s_symmap(rng, depth, variant=None):
     """SYMBOLIC target storage with a mapping: `set(){m[k1]=1; armed=1}` writes one entry, `probe(){if (armed) seen = m[k2]}` reads
     another, never-written entry (k2 a literal ≠ k1, or taken from calldata with require(k != k1)); `armed` and `seen` are assumed
@@ -335,7 +359,7 @@ def s_symmap(rng, depth, variant=None):
 
 
 TEMPLATES = [s_counter, s_counter, s_setter, s_toggle, s_token, s_token, s_owned, s_owned, s_clock, s_two, s_two, s_two, s_boom,
-             s_symstore, s_symmap, s_assertinc]
+             s_symstore, s_symmap, s_assertinc, s_alias]
 
 
 # ------------------------------------------------------------------------------------------------ halmos output
@@ -704,7 +728,7 @@ def make_item(seed, tmpl_idx, depth, mode=None, variant=None):
     tmpl = TEMPLATES[tmpl_idx % len(TEMPLATES)]
     if mode:
         scn = tmpl(rng, depth, mode)
-    elif variant is not None and tmpl in (s_token, s_owned, s_two, s_symstore, s_symmap, s_assertinc):
+    elif variant is not None and tmpl in (s_token, s_owned, s_two, s_symstore, s_symmap, s_assertinc, s_alias):
         scn = tmpl(rng, depth, variant)
     else:
         scn = tmpl(rng, depth)
@@ -738,6 +762,9 @@ def correspond(ctx):
     # directed: target functions with an assertion-failure path and a mutating path, called repeatedly (probe reports awaited)
     for v in range(4):
         items.append(make_item(5000 + v, TEMPLATES.index(s_assertinc), 2 + v % 2, variant=v))
+    # directed: a storage-held symbolic address called by two target functions from the same frontier state
+    for v in range(4):
+        items.append(make_item(6000 + v, TEMPLATES.index(s_alias), 2, variant=v))
     # directed: symbolic mapping storage, write m[k1] then read the never-written m[k2] (literal / calldata key, both orders)
     for v in range(6):
         items.append(make_item(4000 + v, TEMPLATES.index(s_symmap), 2 if v < 4 else (1 + v % 2 * 2), variant=v))
